@@ -1040,9 +1040,15 @@ func writeEvidence(verif, prop, tier string, seed, nObl, nDis, nSmoke, nSmokeOK 
 		cov["all_obligations"] = evs
 	}
 	level := "proof"
-	if len(fucs) == 0 {
+	if pl, ok := p.cs.PropertyLevel[prop]; ok {
+		level = pl[0]
+		cov["explanation"] = pl[1]
+		cov["evaluations"] = nObl
+		cov["distinct_nontrivial"] = nObl
+	} else if len(fucs) == 0 {
 		// no function body was verified: every obligation of this run is a structural scan
 		level = "other"
+		cov["explanation"] = "every obligation of this property is discharged by a scan of the SSA / call graph of the real code, not by an SMT proof"
 		cov["evaluations"] = nObl
 		cov["distinct_nontrivial"] = nObl
 		cov["note"] = "every obligation of this property is discharged by a scan of the SSA / call graph of the real code (reference-walk completeness), not by an SMT proof"
